@@ -374,3 +374,29 @@ Proof. vm_compute. reflexivity. Qed.
 Example f4_unchanged_busy :
   cascade false f4_prog all_true all_advance 2000 f4_state = COut.
 Proof. vm_compute. reflexivity. Qed.
+
+(* main: activate a; match X()      a: send Out(); abort
+   the failing advance of `a` is its SECOND one (after the action), its status is STARTING *)
+Definition f5_prog : program :=
+  [ [EWaitInt true; EStep; EStart 1 true; EWaitInt false; EBlock BMatch];
+    [EWaitInt true; EBlock BAction; EAbort] ].
+Definition f5_state : cstate :=
+  {| c_insts := [ {| c_flow := 0; c_pos := 3; c_catch := []; c_status := CStarting; c_act := false;
+                     c_restarted := false; c_inert := false |} ];
+     c_queue := [CStart 1 true]; c_tick := 0 |}.
+
+Example f5_guarded : cascade_guardedb f5_prog = true.
+Proof. vm_compute. reflexivity. Qed.
+
+(* repaired guard (restart only if the flow HAD BEEN STARTED): one failure, no restart *)
+Example f5_repaired_terminates :
+  match cascade true f5_prog all_true all_advance 20 f5_state with
+  | COk st => c_queue st = [] /\ length (c_insts st) = 2
+  | _ => False
+  end.
+Proof. vm_compute. split; reflexivity. Qed.
+
+(* a guard that only looks at the first advance (or no guard) restarts it over and over *)
+Example f5_unguarded_busy :
+  cascade false f5_prog all_true all_advance 2000 f5_state = COut.
+Proof. vm_compute. reflexivity. Qed.
